@@ -30,7 +30,7 @@
 #undef private
 #include "ola/thread/ThreadPool.h"
 #include "ola/base/Flags.h"
-#include "olad/plugin_api/Preferences.h"
+#include "olad/Preferences.h"
 #include <sys/stat.h>
 DECLARE_bool(use_epoll);
 #include "ola/Logging.h"
